@@ -458,7 +458,7 @@
  *
  * @see @link DOXGRP_OBJ LibAST Object Infrastructure @endlink, SPIF_OBJ_CLASS()
  */
-#define SPIF_OBJ_CLASSNAME(obj)          ((spif_classname_t) SPIF_OBJ_CLASS(obj))
+#define SPIF_OBJ_CLASSNAME(obj)          ((spif_classname_t) (SPIF_OBJ_CLASS(obj)->classname))
 
 /**
  * Call the named method for a given object.
